@@ -129,6 +129,20 @@ func cmdDump(args []string) {
 
 // verifyUnit runs the engine on one unit and discharges its obligations.
 func verifyUnit(p *Prog, unit string) *UnitResult {
+	r := verifyUnit0(p, unit)
+	if i := strings.Index(r.Err, "contract does not bind"); i >= 0 {
+		// The code no longer has the shape the contract is anchored in (a variable, call
+		// or loop the proof relies on is gone): the proof obligations can no longer be
+		// generated, which is reported as a failed (undecided) obligation, not as a pass.
+		rel, key := splitUnit(unit)
+		r.Obls = append(r.Obls, &OblResult{Name: rel + "." + key + ".binding", Kind: "binding", Status: "undischarged", Unit: unit,
+			Src: "contract binds to the code", Output: r.Err[i:]})
+		r.Err = ""
+	}
+	return r
+}
+
+func verifyUnit0(p *Prog, unit string) *UnitResult {
 	t0 := time.Now()
 	rel, key := splitUnit(unit)
 	pkg := modulePath
@@ -175,7 +189,11 @@ func verifyUnit(p *Prog, unit string) *UnitResult {
 		return res
 	}
 	uses := e.useAssertions(c)
+	tExec := time.Since(t0).Seconds()
 	res.Obls = e.SolveUnit(unit, uses)
+	if os.Getenv("SPECV_PROF") != "" {
+		fmt.Fprintf(os.Stderr, "prof %s: exec %.2fs, solve %.2fs, %d obligations, %d decls\n", unit, tExec, time.Since(t0).Seconds()-tExec, len(e.oblOrder), len(e.S.all))
+	}
 	for a := range e.assumptions {
 		res.Assumptions = append(res.Assumptions, a)
 	}
